@@ -63,6 +63,15 @@ static std::string int_ops(const std::string& op, const Args& a) {
     if (op == "int.write.print") { std::ostringstream o; parseZ(a[0]).print(o); return hex(o.str()); }
     if (op == "int.write.string") { std::string s = (std::string) parseZ(a[0]); return hex(s); }
     if (op == "int.write.zring") { std::ostringstream o; ZRing<Integer> Z; Z.write(o, parseZ(a[0])); return hex(o.str()); }
+    if (op == "int.write.abs") { std::ostringstream o; absOutput(o, parseZ(a[0])); return hex(o.str()); }
+    if (op == "int.rt.op" || op == "int.rt.zring" || op == "int.rt.print") {      // z old tail
+        std::ostringstream o; ZRing<Integer> Z; Integer z = parseZ(a[0]), x = parseZ(a[1]);
+        if (op == "int.rt.op") o << z; else if (op == "int.rt.print") z.print(o); else Z.write(o, z);
+        std::istringstream is(o.str() + unhex(a[2]));
+        if (op == "int.rt.zring") Z.read(is, x); else is >> x;
+        return hex(o.str()) + " " + show(x) + " " + after(is);
+    }
+    if (op == "int.strrt") { Integer z = parseZ(a[0]); std::string t = (std::string) z; Integer x(t.c_str()); return hex(t) + " " + show(x); }
     if (op == "int.cstr") { std::string s = unhex(a[0]); Integer x(s.c_str()); return show(x); }
     if (op == "int.seq") {
         int n = atoi(a[0].c_str()); std::istringstream is(unhex(a[1])); std::string r;
@@ -94,6 +103,17 @@ static std::string rat_ops(const std::string& op, const Args& a) {
         if (op == "rat.write.op") o << r; else if (op == "rat.write.print") r.print(o); else { QField<Rational> Q; Q.write(o, r); }
         return hex(o.str());
     }
+    if (op == "rat.rt.op" || op == "rat.rt.qfield" || op == "rat.rt.print") {     // n d tail   (n/d canonical)
+        Rational r(parseZ(a[0]), parseZ(a[1]), 0), x(7, 3); QField<Rational> Q; std::ostringstream o; std::string v;
+        if (op == "rat.rt.op") o << r; else if (op == "rat.rt.print") r.print(o); else Q.write(o, r);
+        std::istringstream is(o.str() + unhex(a[2]));
+        try { if (op == "rat.rt.qfield") Q.read(is, x); else is >> x; v = showq(x); } catch (...) { v = "EXC"; }
+        return hex(o.str()) + " " + v + " " + after(is);
+    }
+    if (op == "rat.strrt") {
+        Rational r(parseZ(a[0]), parseZ(a[1]), 0); std::ostringstream o; o << r;
+        try { Rational x(o.str().c_str()); return hex(o.str()) + " " + showq(x); } catch (...) { return hex(o.str()) + " EXC"; }
+    }
     if (op == "rat.seq") {
         int n = atoi(a[0].c_str()); std::istringstream is(unhex(a[1])); std::string r;
         for (int i = 0; i < n; ++i) {
@@ -116,6 +136,7 @@ template <class Ring> struct RingIO {
     typedef typename Ring::Element E;
     static std::string norm(const Ring& F, const E& e, const Integer& p) { Integer v; F.convert(v, e); v %= p; if (v < 0) v += p; return show(v); }
     static std::string go(const std::string& op, const Args& a) {
+        if (op == "ring.maxc") { Integer m; Caster(m, Ring::maxCardinality()); return show(m); }
         static std::unique_ptr<Ring> cur; static std::string curp;
         if (!cur || curp != a[0]) { cur.reset(new Ring(RP<typename Ring::Residu_t>::parse(a[0]))); curp = a[0]; }
         const Ring& F = *cur; Integer p = parseZ(a[0]);
@@ -171,7 +192,8 @@ template <class T> struct GfqIO {
             typename Fld::Element e = (typename Fld::Element) atoll(a[2].c_str()), e2 = 0;
             std::ostringstream o; F.write(o, e);
             std::istringstream is(o.str() + unhex(a[3])); F.read(is, e2);
-            return hex(o.str()) + " " + (F.areEqual(e, e2) ? "1" : "0") + " " + std::to_string((long long) e2) + " " + after(is);
+            int64_t v2; F.convert(v2, e2);
+            return hex(o.str()) + " " + (F.areEqual(e, e2) ? "1" : "0") + " " + std::to_string((long long) v2) + " " + after(is);
         }
         if (op == "gfq.read") {         // value as the integer convert() gives
             typename Fld::Element e = 0; std::istringstream is(unhex(a[2])); F.read(is, e);
@@ -183,6 +205,8 @@ template <class T> struct GfqIO {
 };
 
 // ---------------------------------------------------------------- RecInt
+// rint<K> from a signed integer (rint's template constructor takes the ruint path, which is for values >= 0)
+template <size_t K> static RecInt::rint<K> mkrint(const Integer& z) { RecInt::rint<K> r; RecInt::mpz_t_to_rint(r, z.get_mpz_const()); return r; }
 template <size_t K> struct RecIO {
     static std::string go(const std::string& op, const Args& a) {
         bool hx = (a[1] == "1");
@@ -191,7 +215,17 @@ template <size_t K> struct RecIO {
             RecInt::ruint<K> x(5); std::istringstream is(unhex(a[2])); if (hx) is >> std::hex; is >> x;
             Integer z(x); return show(z) + " " + after(is);
         }
-        if (op == "ri.write") { RecInt::rint<K> x(parseZ(a[2])); std::ostringstream o; if (hx) o << std::hex; o << x; return hex(o.str()); }
+        if (op == "ru.rt") {
+            RecInt::ruint<K> x(parseZ(a[2])), y(5); std::ostringstream o; if (hx) o << std::hex; o << x;
+            std::istringstream is(o.str() + unhex(a[3])); if (hx) is >> std::hex; is >> y;
+            Integer z(y); return hex(o.str()) + " " + show(z) + " " + after(is);
+        }
+        if (op == "ri.rt") {
+            RecInt::rint<K> x(mkrint<K>(parseZ(a[2]))), y(5); std::ostringstream o; if (hx) o << std::hex; o << x;
+            std::istringstream is(o.str() + unhex(a[3])); if (hx) is >> std::hex; is >> y;
+            Integer z(y); return hex(o.str()) + " " + show(z) + " " + after(is);
+        }
+        if (op == "ri.write") { RecInt::rint<K> x(mkrint<K>(parseZ(a[2]))); std::ostringstream o; if (hx) o << std::hex; o << x; return hex(o.str()); }
         if (op == "ri.read") {
             RecInt::rint<K> x(5); std::istringstream is(unhex(a[2])); if (hx) is >> std::hex; is >> x;
             Integer z(x); return show(z) + " " + after(is);
@@ -230,6 +264,7 @@ int main() {
     REG("log16", Modular<Log16>);
     REGP("i32_i64", Modular<int32_t, int64_t>); REGP("d_d", Modular<double, double>); REGP("zz", Modular<Integer>);
     REGP("bi32", ModularBalanced<int32_t>); REGP("i8_i16", Modular<int8_t, int16_t>);
+    REGP("mg32", Montgomery<int32_t>); REGP("bd", ModularBalanced<double>); REGP("u64_u64", Modular<uint64_t, uint64_t>);
 
     std::string line;
     while (std::getline(std::cin, line)) {
@@ -254,7 +289,7 @@ int main() {
             } else if (op.compare(0, 3, "ru.") == 0 || op.compare(0, 3, "ri.") == 0) {
                 int K = atoi(a[0].c_str());
                 out = K == 6 ? RecIO<6>::go(op, a) : K == 7 ? RecIO<7>::go(op, a) : K == 8 ? RecIO<8>::go(op, a)
-                    : K == 9 ? RecIO<9>::go(op, a) : "UNSUPPORTED-K";
+                    : K == 9 ? RecIO<9>::go(op, a) : K == 12 ? RecIO<12>::go(op, a) : "UNSUPPORTED-K";
             } else out = "UNKNOWN-OP";
         } catch (...) { out = "EXCEPTION"; }
         std::cout << out << "\n";
